@@ -30,6 +30,7 @@ func init() {
 }
 
 func runC06(c *Ctx) {
+	c05SetRoles(c, "C06.anchors", "cas.content", "file.digestToPath", "file.status.exists", "file.status.lock", "resolver.lock", "resolver.index", "resolver.tags", "graph.lock", "graph.nodes", "graph.predecessors", "graph.successors", "oci.sync", "oci.indexLock", "oci.storage", "oci.tagResolver", "oci.graph", "oci.index")
 	c06R1(c)
 	c06R2Memory(c)
 	c06R2OCIStorage(c)
@@ -46,26 +47,153 @@ func runC06(c *Ctx) {
 
 const c06UnsafeWhy = "lock-free view used by Delete: every unsafeStore is constructed where s.sync is held in W mode and does not escape (proved by the unsafeStore-construction obligation)"
 
+// c06ConstructionExempt is filled per run: unexported methods of oci.Store
+// that are provably called only on a store still private to its constructor.
+var c06ConstructionExempt map[string]string
+
 func c06GuardSpecs() []GuardSpec {
 	return []GuardSpec{
-		{Type: "~/internal/resolver.Memory", Fields: []string{"index", "tags"}, Lock: "lock"},
-		{Type: "~/content/oci.Store", Fields: []string{"storage", "tagResolver", "graph"}, Lock: "sync", Exempt: map[string]string{
-			"(*~/content/oci.unsafeStore).Fetch":        c06UnsafeWhy,
-			"(*~/content/oci.unsafeStore).Predecessors": c06UnsafeWhy,
-		}},
-		{Type: "~/content/oci.Store", Fields: []string{"index"}, Lock: "indexLock", Exempt: map[string]string{
-			"(*~/content/oci.Store).loadIndexFile": "construction: called only from NewWithContext on a store that is not yet shared (checked by the construction-only obligation)",
-		}},
-		{Type: "~/content/file.nameStatus", Fields: []string{"exists"}, Lock: "RWMutex"},
+		{Type: "~/internal/resolver.Memory", Fields: []string{c05Cur.F("resolver.index"), c05Cur.F("resolver.tags")}, Lock: c05Cur.F("resolver.lock")},
+		{Type: "~/content/oci.Store", Fields: []string{c05Cur.F("oci.storage"), c05Cur.F("oci.tagResolver"), c05Cur.F("oci.graph")}, Lock: c05Cur.F("oci.sync"), Exempt: c06UnsafeExempt()},
+		{Type: "~/content/oci.Store", Fields: []string{c05Cur.F("oci.index")}, Lock: c05Cur.F("oci.indexLock"), Exempt: c06ConstructionExempt},
+		{Type: c05Cur.T("file.nameStatus"), Fields: []string{c05Cur.F("file.status.exists")}, Lock: c05Cur.F("file.status.lock")},
 	}
 }
 
+// c06WithLockExempts adds two justified exemptions to the guard specs, both
+// about code the shared lockset engine cannot attribute to a lock holder:
+//   - dead code: an unexported function that nothing calls or references;
+//   - a closure that runs synchronously inside its parent: it is created where
+//     the parent holds the lock in a sufficient mode (until its return) and is
+//     only called, or handed to a call, there — never `go`, never stored.
+//
+// Each closure exemption is recorded as an obligation of its own.
+func c06WithLockExempts(c *Ctx, R string, specs []GuardSpec, pkgs []string) []GuardSpec {
+	all := c05ModuleFuncs(c.P)
+	referenced := map[*ssa.Function]bool{}
+	for _, f := range all {
+		AllInstrs(f, func(in ssa.Instruction) {
+			for _, op := range in.Operands(nil) {
+				if g, ok := (*op).(*ssa.Function); ok {
+					referenced[g] = true
+				}
+			}
+			if mc, ok := in.(*ssa.MakeClosure); ok {
+				referenced[mc.Fn.(*ssa.Function)] = true
+			}
+		})
+	}
+	var fns []*ssa.Function
+	for _, p := range pkgs {
+		fns = append(fns, c.P.FuncsOfPkg(p)...)
+	}
+	out := make([]GuardSpec, len(specs))
+	for i, sp := range specs {
+		ex := map[string]string{}
+		for k, v := range sp.Exempt {
+			ex[k] = v
+		}
+		fields := map[string]bool{}
+		for _, f := range sp.Fields {
+			fields[f] = true
+		}
+		for _, f := range fns {
+			accs := fieldAccesses(f, sp.Type, fields)
+			if len(accs) == 0 {
+				continue
+			}
+			if f.Parent() == nil {
+				if !referenced[f] && f.Object() != nil && !f.Object().Exported() && f.Name() != "init" {
+					ex[FnName(f)] = "dead code: nothing calls or references this unexported function"
+				}
+				continue
+			}
+			// closure
+			par := f.Parent()
+			var mc *ssa.MakeClosure
+			AllInstrs(par, func(in ssa.Instruction) {
+				if m, ok := in.(*ssa.MakeClosure); ok && m.Fn == ssa.Value(f) {
+					mc = m
+				}
+			})
+			if mc == nil {
+				continue
+			}
+			sync := true
+			var uses []ssa.Instruction
+			for _, r := range *mc.Referrers() {
+				switch u := r.(type) {
+				case *ssa.Call:
+					uses = append(uses, u)
+				case *ssa.DebugRef:
+				default:
+					sync = false
+				}
+			}
+			if !sync {
+				continue
+			}
+			held := heldAt(par, heldSet{})
+			okAll := true
+			need := modeR
+			for _, a := range accs {
+				if a.Mode > need {
+					need = a.Mode
+				}
+				// the guarded object as the parent sees it
+				var base ssa.Value
+				if ld, ok := a.Base.(*ssa.UnOp); ok {
+					if fv, ok := ld.X.(*ssa.FreeVar); ok {
+						if bs := freeVarBindings(fv); len(bs) == 1 {
+							if al, ok := bs[0].(*ssa.Alloc); ok {
+								base = c05SingleStoredValue(al)
+							}
+						}
+					}
+				}
+				if base == nil {
+					okAll = false
+					continue
+				}
+				lp := accessPath(base) + "." + sp.Lock
+				for _, at := range append([]ssa.Instruction{mc}, uses...) {
+					if held[at][lp] < a.Mode {
+						okAll = false
+					}
+				}
+			}
+			if okAll {
+				ex[FnName(f)] = "closure that runs synchronously inside " + FnName(par) + " while it holds " + sp.Lock
+				c.OK(R, FnName(f)+"|"+sp.Type+"|closure-runs-under-parents-lock", mc.Pos(), "created and used only where "+FnName(par)+" holds "+sp.Lock+" in "+modeName(need, "read", "write")+" mode; never started as a goroutine or stored")
+			}
+		}
+		sp.Exempt = ex
+		out[i] = sp
+	}
+	return out
+}
+
+// c06UnsafeExempt: the methods of the lock-free view type (found by role: the
+// struct that wraps a *Store) that read the store's fields without s.sync.
+func c06UnsafeExempt() map[string]string {
+	out := map[string]string{}
+	if t := c05Cur.T("oci.unsafeStore"); t != "" {
+		out["(*"+t+").Fetch"] = c06UnsafeWhy
+		out["(*"+t+").Predecessors"] = c06UnsafeWhy
+	}
+	return out
+}
+
 func c06GraphSpec() GuardSpec {
-	return GuardSpec{Type: "~/internal/graph.Memory", Fields: []string{"nodes", "predecessors", "successors"}, Lock: "lock"}
+	return GuardSpec{Type: "~/internal/graph.Memory", Fields: []string{c05Cur.F("graph.nodes"), c05Cur.F("graph.predecessors"), c05Cur.F("graph.successors")}, Lock: c05Cur.F("graph.lock")}
 }
 
 func c06R1(c *Ctx) {
 	const R = "C06.R1.guarded-by"
+	c06ConstructionExempt = map[string]string{}
+	for f := range c06ConstructionOnlyFns(c) {
+		c06ConstructionExempt[FnName(f)] = "construction: only called (statically, not via go/defer, never as a value) on a store that is still private to its constructor"
+	}
 	c.Expect(R, 55) // 67 on the pinned tree; an accessor method contributes 1-3 obligations
 	// anchors: guarded fields and their mutexes must exist
 	for _, sp := range append(c06GuardSpecs(), c06GraphSpec()) {
@@ -87,9 +215,8 @@ func c06R1(c *Ctx) {
 		}
 	}
 	pkgs := []string{"internal/resolver", "internal/graph", "content/oci", "content/file", "content/memory"}
-	LockCheck(c, R, append(c06GuardSpecs(), c06GraphSpec()), pkgs)
+	LockCheck(c, R, c06WithLockExempts(c, R, append(c06GuardSpecs(), c06GraphSpec()), pkgs), pkgs)
 	c06UnsafeStore(c, R)
-	c06ConstructionOnly(c, R, "(*~/content/oci.Store).loadIndexFile")
 	c06BlobRemovalExclusive(c, R)
 }
 
@@ -115,7 +242,7 @@ func c06StoreLockHeld(c *Ctx) func(f *ssa.Function, at ssa.Instruction, depth in
 		if len(f.Params) == 0 {
 			return false, "no receiver"
 		}
-		lp := "P:" + f.Params[0].Name() + ".sync"
+		lp := "P:" + f.Params[0].Name() + "." + c05Cur.F("oci.sync")
 		if at != nil && held(f)[at][lp] >= modeW {
 			return true, ""
 		}
@@ -175,7 +302,10 @@ func c06BlobRemovalExclusive(c *Ctx, R string) {
 // every unsafeStore value is built from a *Store whose sync mutex is held in
 // W mode at that point, and the value only flows into synchronous calls.
 func c06UnsafeStore(c *Ctx, R string) {
-	us := c.P.Named("content/oci", "unsafeStore")
+	var us *types.Named
+	if t := c05Cur.T("oci.unsafeStore"); t != "" {
+		us = c.P.Named("content/oci", t[strings.LastIndex(t, ".")+1:])
+	}
 	if us == nil {
 		c.OK(R, "unsafeStore|absent", token.NoPos, "no lock-free store view exists")
 		return
@@ -231,7 +361,7 @@ func c06UnsafeStore(c *Ctx, R string) {
 				c.Undecided(R, key, al.Pos(), "cannot find the *Store embedded into the unsafeStore literal")
 				return
 			}
-			lp := accessPath(inner) + ".sync"
+			lp := accessPath(inner) + "." + c05Cur.F("oci.sync")
 			heldHere := func(at ssa.Instruction) bool {
 				if held[at][lp] >= modeW {
 					return true
@@ -262,45 +392,39 @@ func c06UnsafeStore(c *Ctx, R string) {
 // c06ConstructionOnly: fn is only called (statically) with a receiver that is
 // fresh in the caller (object under construction), never exported, never
 // stored as a method value.
-func c06ConstructionOnly(c *Ctx, R, name string) {
-	var fn *ssa.Function
-	for _, f := range c.P.FuncsOfPkg("content/oci") {
-		if FnName(f) == name {
-			fn = f
+// c06ConstructionOnlyFns: the unexported functions of content/oci that are
+// only ever called on a receiver still under construction in the caller
+// (never exported, never via go/defer, never taken as a value).
+func c06ConstructionOnlyFns(c *Ctx) map[*ssa.Function]bool {
+	out := map[*ssa.Function]bool{}
+	all := c05ModuleFuncs(c.P)
+	for _, fn := range c.P.FuncsOfPkg("content/oci") {
+		if fn.Parent() != nil || fn.Object() == nil || fn.Object().Exported() || fn.Signature.Recv() == nil {
+			continue
+		}
+		ok, ncall := true, 0
+		for _, f := range all {
+			AllInstrs(f, func(in ssa.Instruction) {
+				call, isCall := in.(ssa.CallInstruction)
+				if isCall && StaticCallee(call) == fn {
+					ncall++
+					if _, isPlain := in.(*ssa.Call); !isPlain || !pathIsFresh(accessPath(call.Common().Args[0])) {
+						ok = false
+					}
+					return
+				}
+				for _, op := range in.Operands(nil) {
+					if *op == ssa.Value(fn) && !(isCall && call.Common().Value == ssa.Value(fn)) {
+						ok = false
+					}
+				}
+			})
+		}
+		if ok && ncall > 0 {
+			out[fn] = true
 		}
 	}
-	if fn == nil {
-		c.OK(R, name+"|construction-only", token.NoPos, "function no longer exists; exemption unused")
-		return
-	}
-	ok, why := fn.Object() != nil && !fn.Object().Exported(), "exported"
-	ncall := 0
-	for _, f := range c05ModuleFuncs(c.P) {
-		AllInstrs(f, func(in ssa.Instruction) {
-			call, isCall := in.(ssa.CallInstruction)
-			if isCall && StaticCallee(call) == fn {
-				ncall++
-				if _, isPlain := in.(*ssa.Call); !isPlain {
-					ok, why = false, "called via go/defer in "+FnName(f)
-				}
-				if !pathIsFresh(accessPath(call.Common().Args[0])) {
-					ok, why = false, "called from "+FnName(f)+" on a receiver that is not under construction"
-				}
-				return
-			}
-			// method value / closure reference
-			for _, op := range in.Operands(nil) {
-				if *op == ssa.Value(fn) && !(isCall && call.Common().Value == ssa.Value(fn)) {
-					ok, why = false, "taken as a value in "+FnName(f)
-				}
-			}
-		})
-	}
-	if ncall == 0 {
-		ok, why = false, "no static caller"
-	}
-	c.Check(R, name+"|construction-only", fn.Pos(), ok,
-		ifelse(ok, "only called on a store that is still private to its constructor", "the function that touches s.index without indexLock is "+why))
+	return out
 }
 
 // ---------------------------------------------------------------- R2 helpers
@@ -420,36 +544,22 @@ type c06Ret struct {
 // with the error values they may carry on those paths.
 func c06ReturnsFrom(fn *ssa.Function, e Edge, ct *cut) []c06Ret {
 	idx := ErrResultIndex(fn.Signature)
-	type state struct{ b, pred *ssa.BasicBlock }
-	seen := map[state]bool{}
 	var out []c06Ret
-	var walk func(b, pred *ssa.BasicBlock)
-	walk = func(b, pred *ssa.BasicBlock) {
-		if seen[state{b, pred}] {
+	seen := map[*ssa.Return]map[*ssa.BasicBlock]bool{}
+	c05ReachF(e.To, 0, e.From, nil, ct, c05EdgeFacts(e), func(r *ssa.Return, pred *ssa.BasicBlock) {
+		if seen[r] == nil {
+			seen[r] = map[*ssa.BasicBlock]bool{}
+		}
+		if seen[r][pred] {
 			return
 		}
-		seen[state{b, pred}] = true
-		for _, in := range b.Instrs {
-			if ct != nil && ct.instrs[in] {
-				return
-			}
-			if r, ok := in.(*ssa.Return); ok {
-				var vals []ssa.Value
-				if idx >= 0 {
-					vals = resolveAt(r.Results[idx], b, pred, r, map[ssa.Value]bool{})
-				}
-				out = append(out, c06Ret{r, vals})
-				return
-			}
+		seen[r][pred] = true
+		var vals []ssa.Value
+		if idx >= 0 {
+			vals = resolveAt(r.Results[idx], r.Block(), pred, r, map[ssa.Value]bool{})
 		}
-		for _, s := range b.Succs {
-			if ct != nil && ct.edges[Edge{b, s}] {
-				continue
-			}
-			walk(s, b)
-		}
-	}
-	walk(e.To, e.From)
+		out = append(out, c06Ret{r, vals})
+	})
 	return out
 }
 
@@ -524,7 +634,7 @@ func c06R2Memory(c *Ctx) {
 	tn := FnName(fn)
 	onMap := func(call ssa.CallInstruction) bool {
 		a := call.Common().Args
-		return len(a) > 0 && c05IsFieldAddrOf(a[0], "~/internal/cas.Memory", "content")
+		return len(a) > 0 && c05IsFieldAddrOf(a[0], "~/internal/cas.Memory", c05Cur.F("cas.content"))
 	}
 	// instructions of Push that write the map, directly or through a helper
 	var writers []ssa.Instruction
@@ -655,7 +765,7 @@ func c06R2File(c *Ctx) {
 		// also calls that record digests (Add computes and records without fs mutation for plain files)
 		for _, call := range Calls(fn, func(string) bool { return true }) {
 			if g := StaticCallee(call); g != nil && inModule(g) && reachesCall(g, 3, func(n string, cc ssa.CallInstruction) bool {
-				return c05SyncMapWriters[n] && len(cc.Common().Args) > 0 && c05IsFieldAddrOf(cc.Common().Args[0], "~/content/file.Store", "digestToPath")
+				return c05SyncMapWriters[n] && len(cc.Common().Args) > 0 && c05IsFieldAddrOf(cc.Common().Args[0], "~/content/file.Store", c05Cur.F("file.digestToPath"))
 			}) {
 				dup := false
 				for _, e := range effects {
@@ -672,7 +782,7 @@ func c06R2File(c *Ctx) {
 		claimed := func(g *ssa.Function) (te, fe []Edge, isVal func(ssa.Value) bool) {
 			isLoad := func(v ssa.Value) bool {
 				u, ok := v.(*ssa.UnOp)
-				return ok && u.Op == token.MUL && c05IsFieldAddrOf(u.X, "~/content/file.nameStatus", "exists")
+				return ok && u.Op == token.MUL && c05IsFieldAddrOf(u.X, c05Cur.T("file.nameStatus"), c05Cur.F("file.status.exists"))
 			}
 			for _, i := range Ifs(g) {
 				cond, t, f := ifEdges(i)
@@ -686,7 +796,7 @@ func c06R2File(c *Ctx) {
 		// the per-name lock: receivers of Lock() on a nameStatus
 		statusBases := map[string]bool{}
 		for _, call := range CallsTo(fn, "(*sync.RWMutex).Lock", "(*sync.Mutex).Lock") {
-			if fa, ok := call.Common().Args[0].(*ssa.FieldAddr); ok && strings.HasPrefix(fieldName(fa.X.Type(), fa.Field), "~/content/file.nameStatus.") {
+			if fa, ok := call.Common().Args[0].(*ssa.FieldAddr); ok && c05Cur.T("file.nameStatus") != "" && strings.HasPrefix(fieldName(fa.X.Type(), fa.Field), c05Cur.T("file.nameStatus")+".") {
 				statusBases[accessPath(fa.X)] = true
 			}
 		}
@@ -706,7 +816,7 @@ func c06R2File(c *Ctx) {
 		for _, e := range effects {
 			okE := false
 			for b := range statusBases {
-				if held[e][b+".RWMutex"] >= modeW {
+				if held[e][b+"."+c05Cur.F("file.status.lock")] >= modeW {
 					okE = true
 				}
 			}
@@ -842,7 +952,7 @@ func c06R2Tag(c *Ctx) {
 			for lv := e; lv.Parent != nil && lv.Call != nil; lv = lv.Parent {
 				if ErrOf(lv.Call) == nil {
 					ok2, why = false, "the verdict of "+FnName(lv.Fn)+" is discarded"
-				} else if r := ErrFlow(lv.Call, ErrFlowOpts{}); !r.OK {
+				} else if r := c05ErrFlow(lv.Call, ErrFlowOpts{}); !r.OK {
 					ok2, why = false, r.Detail
 				}
 			}
@@ -867,7 +977,7 @@ func c06R2Resolve(c *Ctx) {
 			if !ok || !lk.CommaOk || strip(lk.Index) != ssa.Value(ref) {
 				return
 			}
-			if u, ok := lk.X.(*ssa.UnOp); !ok || !c05IsFieldAddrOf(u.X, "~/internal/resolver.Memory", "index") {
+			if u, ok := lk.X.(*ssa.UnOp); !ok || !c05IsFieldAddrOf(u.X, "~/internal/resolver.Memory", c05Cur.F("resolver.index")) {
 				return
 			}
 			for _, r := range *lk.Referrers() {
@@ -897,7 +1007,7 @@ func c06R2Resolve(c *Ctx) {
 				return n == "(~/content.Resolver).Resolve" || n == "(*~/internal/resolver.Memory).Resolve"
 			}) {
 				n++
-				r := ErrFlow(call, ErrFlowOpts{Tolerated: x.tol})
+				r := c05ErrFlow(call, ErrFlowOpts{Tolerated: x.tol})
 				okTol := true
 				detail := r.How + r.Detail
 				if r.OK && len(x.tol) > 0 {
@@ -918,7 +1028,7 @@ func c06R2Resolve(c *Ctx) {
 				for lv := e; lv.Parent != nil && lv.Call != nil; lv = lv.Parent {
 					if ErrOf(lv.Call) == nil {
 						okTol, detail = false, "the result of "+FnName(lv.Fn)+" is discarded"
-					} else if rr := ErrFlow(lv.Call, ErrFlowOpts{}); !rr.OK {
+					} else if rr := c05ErrFlow(lv.Call, ErrFlowOpts{}); !rr.OK {
 						okTol, detail = false, rr.Detail
 					}
 				}
@@ -940,7 +1050,7 @@ func c06R2ResolverMaps(c *Ctx) {
 	const R = "C06.R2.refuse-before-mutate"
 	isIndex := func(v ssa.Value) bool {
 		u, ok := v.(*ssa.UnOp)
-		return ok && u.Op == token.MUL && c05IsFieldAddrOf(u.X, "~/internal/resolver.Memory", "index")
+		return ok && u.Op == token.MUL && c05IsFieldAddrOf(u.X, "~/internal/resolver.Memory", c05Cur.F("resolver.index"))
 	}
 	if fn := c06Fn(c, R, "internal/resolver", "Memory.Tag"); fn != nil {
 		var ref, desc *ssa.Parameter
